@@ -221,6 +221,63 @@ SYNTHETIC = [
     ('nitro-like-charges', '[N;D1:1][C:2]', '[N+:1]([A:2])(=[O:8])[O-:9]', {}),
 ]
 
+
+
+def _attr_templates():
+    """Round 5: every atom attribute the replacement can request (charge, radical state, isotope) x the value the PATTERN atom
+    has (set / unset) x the way the replacement names the atom (any-atom `A`, concrete query element, molecule `Element`) x
+    the value it requests (unset = 0 / False / None, same, different). Atom 1 carries the attribute, atom 2 is its carbon."""
+    out = []
+    def add(tag, q, r):
+        out.append((f'attr-{tag}-{len(out)}', q, r, {}))
+    # charge
+    sites = [('anion', '[O;-:1]-[C:2]', 'O', 'S'), ('cation', '[N;+:1]-[C:2]', 'N', 'P'),
+             ('neutralO', '[O;D1:1]-[C:2]', 'O', 'S'), ('neutralN', '[N;D1:1]-[C:2]', 'N', 'P')]
+    for tag, q, el, el2 in sites:
+        for ch in ('', '+', '-'):
+            add(f'charge-{tag}-A{ch}', q, f'[A{ch}:1]-[A:2]')
+            add(f'charge-{tag}-Q{ch}', q, f'[{el}{ch}:1]-[A:2]')
+        add(f'charge-{tag}-retype', q, f'[{el2}:1]-[A:2]')
+        add(f'charge-{tag}-retype-', q, f'[{el2}-:1]-[A:2]')
+    add('charge-anion-mol', '[O;-:1]-[C:2]', 'mol:[OH:1]-[CH3:2]')
+    add('charge-anion-mol-', '[O;-:1]-[C:2]', 'mol:[O-:1]-[CH3:2]')
+    add('charge-cation-mol', '[N;+:1]-[C:2]', 'mol:[NH2:1]-[CH3:2]')
+    add('charge-cation-mol+', '[N;+:1]-[C:2]', 'mol:[NH3+:1]-[CH3:2]')
+    add('charge-neutralO-mol-', '[O;D1:1]-[C:2]', 'mol:[O-:1]-[CH3:2]')
+    add('charge-zwitterion-A', '[N;+:1]-[C:2]-[C:3](=[O:4])-[O;-:5]', '[A:1]-[A:2]-[A:3](=[A:4])-[A:5]')
+    add('charge-zwitterion-swap', '[N;+:1]-[C:2]-[C:3](=[O:4])-[O;-:5]', '[A:1]-[A:2]-[A:3](=[A:4])-[A-:5]')
+    add('charge-carboxylate-A', '[O;-:1]-[C:2]=[O:3]', '[A:1]-[A:2]=[A:3]')
+    # radical state (CXSMILES radical index = position of the atom in the string)
+    for tag, q in (('radO', '[C:2]-[O:1] |^1:1|'), ('radC', '[C:2]-[C;D1:1] |^1:1|'), ('plainO', '[C:2]-[O;D1:1]')):
+        el = 'C' if tag == 'radC' else 'O'
+        add(f'radical-{tag}-A', q, '[A:2]-[A:1]')
+        add(f'radical-{tag}-A^', q, '[A:2]-[A:1] |^1:1|')
+        add(f'radical-{tag}-Q', q, f'[A:2]-[{el}:1]')
+        add(f'radical-{tag}-Q^', q, f'[A:2]-[{el}:1] |^1:1|')
+        add(f'radical-{tag}-partner^', q, '[A:2]-[A:1] |^1:0|')
+        add(f'radical-{tag}-mol', q, f'mol:[CH3:2]-[{el}H{3 if el == "C" else ""}:1]')
+    # isotope (an any-atom keeps the matched atom's isotope; a concrete element sets the one it is written with, None included)
+    for tag, q in (('iso13', '[13C:1][C:2]'), ('isoNone', '[C;D1:1][C:2]')):
+        add(f'isotope-{tag}-A', q, '[A:1][A:2]')
+        add(f'isotope-{tag}-Q', q, '[C:1][A:2]')
+        add(f'isotope-{tag}-Q13', q, '[13C:1][A:2]')
+        add(f'isotope-{tag}-Q14', q, '[14C:1][A:2]')
+        add(f'isotope-{tag}-mol', q, 'mol:[CH3:1][CH3:2]')
+        add(f'isotope-{tag}-mol13', q, 'mol:[13CH3:1][CH3:2]')
+    # several attributes on one atom
+    add('combo-13C-anion-A', '[13C:1][O;-:2]', '[A:1][A:2]')
+    add('combo-13C-anion-Q', '[13C:1][O;-:2]', '[C:1][O:2]')
+    add('combo-13C-anion-keep', '[13C:1][O;-:2]', '[13C:1][A-:2]')
+    return out
+
+
+ATTR_TEMPLATES = _attr_templates()
+
+# molecules whose atoms carry the attributes above (the only inputs of ATTR_TEMPLATES; also given to every other template)
+ATTR_MOLS = ['CC(=O)[O-]', '[O-]C(=O)c1ccccc1', 'CC[NH3+]', '[NH3+]CC(=O)[O-]', 'CC(C)[O-]', 'C[NH2+]CC', 'CC[O] |^1:2|',
+             'C[CH2] |^1:1|', 'CC(C)[CH2] |^1:3|', '[13CH3]CO', '[13CH3][13CH2]N', 'C[14CH2]N', '[13CH3][O-]', '[13CH3]C(=O)[O-]',
+             '[O-]CC[NH3+]', '[Na+].CC[O-]', 'CC[13CH2][O] |^1:3|', 'CCO', 'CCN', 'CC']
+
 # templates the constructor or the patcher must reject (error branches)
 REJECTED = [
     ('any-new', '[C:1]', '[A:1][A:2]', {}),                 # AnyElement that is not in the pattern -> ValueError in _patcher
@@ -725,7 +782,10 @@ BLOCKS = ['CC(=O)O', 'OC(=O)c1ccccc1', 'CN', 'CCNCC', 'Nc1ccccc1', 'C1CCNCC1', '
           # several reactive sites in one molecule (one match of a pattern is combined with several matches of another)
           'OCCO', 'NCC(C)CCN', 'OB(O)c1ccc(cc1)B(O)O', 'Brc1ccc(Br)cc1', 'Nc1ccc(N)cc1', 'C#CCCC#C', 'O=C=NCCN=C=O',
           'ClS(=O)(=O)CCS(Cl)(=O)=O', 'OC(=O)c1ccc(cc1)C(O)=O', 'CNCCNC', 'O=CCCC(C)=O',
-          'NCC1=C2C=CN=C2C=CN1', 'OC(=O)CC1=C2C=CN=C2C=CN1', 'OCC1=C2C=CN=C2C=CN1', '[Na+].[Cl-]', 'O']
+          'NCC1=C2C=CN=C2C=CN1', 'OC(=O)CC1=C2C=CN=C2C=CN1', 'OCC1=C2C=CN=C2C=CN1', '[Na+].[Cl-]', 'O',
+          # Round 5: charged / radical / isotopically labelled building blocks
+          'CC(=O)[O-]', '[O-]C(=O)c1ccccc1', 'CC[NH3+]', 'C[NH2+]C', 'CC[O] |^1:2|', 'C[CH2] |^1:1|', '[13CH3]C(=O)[O-]',
+          '[13CH3]CC', '[13CH3]C(C)=O', '[Na+]']
 
 SYNTH_REACTORS = [
     # (name, patterns, products, kwargs)
@@ -735,6 +795,13 @@ SYNTH_REACTORS = [
     ('single-pattern-multi', ['[C;z1:1][Br;D1:2]'], ['[A:1][O:2]'], {'one_shot': False, 'polymerise_limit': 3}),
     ('new-atoms-two-reactants', ['[C:1][N;D1:2]', '[C:3][O;D1:4]'], ['[A:1][A:2][C:7](=[O:8])[A:4][A:3]'], {}),
     ('keep-all', ['[N;D1:1]', '[O;D1:2]'], ['[A:1].[A:2]'], {'delete_atoms': False}),
+    # Round 5: pattern atoms that are charged / radical / isotopic, named by the products with other (or neutral) attributes
+    ('carboxylate-protonate', ['[O;-:1]-[C:2]=[O:3]'], ['[A:1]-[A:2]=[A:3]'], {}),
+    ('ammonium-to-amine-Q', ['[N;+:1][C:2]'], ['[N:1][A:2]'], {}),
+    ('ammonium-acylation', ['[N;+:1][C:2]', '[C:3](=[O:4])[Cl;D1:5]'], ['[A:2][A:1][A:3]=[A:4]', '[A-:5]'], {}),
+    ('carboxylate-alkylation', ['[O;-:1][C:2]=[O:3]', '[C;z1:4][Br;D1:5]'], ['[A:3]=[A:2][A:1][A:4]', '[A-:5]'], {}),
+    ('radical-recombination', ['[C:1][O:2] |^1:1|', '[C:3][C;D1:4] |^1:1|'], ['[A:1][A:2][A:4][A:3]'], {}),
+    ('label-scramble', ['[13C;D1:1][C:2]', '[C;D1:3][O:4]'], ['[C:1][A:2]', '[13C:3][A:4]'], {}),
 ]
 
 
@@ -1168,6 +1235,76 @@ def _reactor_match_clauses(patterns, products, kw, mols, cap):
     return bad
 
 
+def reactor_named_clauses(patterns, products, kw, mols, cap=40, mcap=200):
+    """named atoms as requested, on the PUBLIC one-shot `Reactor` output (real code only): for every reaction delivered there
+    must be a choice of reactants and a match of the patterns (matcher = C07, trusted) such that every product-template atom
+    that the match maps appears in the products under the matched atom's number with the requested charge and radical state,
+    the requested element / isotope (any-atom: those of the matched atom). The reactants are renumbered to disjoint ranges
+    first, so neither `fix_mapping_overlap` nor the collision remap moves a matched atom."""
+    try:
+        return _reactor_named_clauses(patterns, products, kw, mols, cap, mcap)
+    except Exception as e:
+        return [('product-graph', f'the reactor named-atom oracle could not handle a product: {type(e).__name__}: {e}')]
+
+
+def _reactor_named_clauses(patterns, products, kw, mols, cap, mcap):
+    from chython import Reactor
+    from chython.periodictable import AnyElement
+    kw2 = {k: v for k, v in dict(kw).items() if k in ('delete_atoms', 'automorphism_filter')}
+    af = kw2.get('automorphism_filter', True)
+    ms, off = [], 0
+    for m in mols:
+        m2 = m.copy()
+        m2.remap({n: off + i for i, n in enumerate(list(m2), 1)})
+        off += len(m2)
+        ms.append(m2)
+    ratoms = [(n, ra) for pr in products for n, ra in pr.atoms()]
+    R = Reactor(patterns, products, one_shot=True, fix_aromatic_rings=False, **kw2)
+    try:
+        rxns = list(itertools.islice(R(*[m.copy() for m in ms]), cap))
+    except Exception:
+        return []     # a raising template is judged by the other reactor clauses
+    if not rxns:
+        return []
+    cands = []
+    for idx in itertools.permutations(range(len(ms)), len(patterns)):
+        per = [list(itertools.islice(p.get_mapping(ms[i], automorphism_filter=af), 12)) for p, i in zip(patterns, idx)]
+        for combo in itertools.islice(itertools.product(*per), mcap):
+            mp = {}
+            for c in combo:
+                mp.update(c)
+            src = {n: a for i in idx for n, a in ms[i].atoms()}
+            cands.append((mp, src))
+    bad = []
+    for rxn in rxns:
+        patoms = {n: a for p in rxn.products for n, a in p.atoms()}
+        ok, why = False, ''
+        for mp, src in cands:
+            good = True
+            for n, ra in ratoms:
+                if n not in mp:
+                    continue
+                a = patoms.get(mp[n])
+                if a is None:
+                    good = False
+                    break
+                sa = src[mp[n]]
+                want = ((sa.atomic_number, sa.isotope) if isinstance(ra, AnyElement) else (ra.atomic_number, ra.isotope)) + \
+                       (ra.charge, ra.is_radical)
+                if (a.atomic_number, a.isotope, a.charge, a.is_radical) != want:
+                    good = False
+                    why = f'atom {mp[n]} (template atom {n}) is {(a.atomic_number, a.isotope, a.charge, a.is_radical)}, requested {want}'
+                    break
+            if good:
+                ok = True
+                break
+        if not ok:
+            bad.append(('named-atoms', f'reaction {rxn}: no choice of reactants and match gives every named atom its requested '
+                                       f'element / isotope / charge / radical state (e.g. {why})'))
+            break
+    return bad
+
+
 def switch_clauses(q, r, mol, kw=None, limit=6):
     """the post-processing switches mean what they say (real code only): for either value of `fix_tautomers`, the products
     built with `fix_aromatic_rings=True` are exactly the products built with `fix_aromatic_rings=False` followed by
@@ -1363,6 +1500,11 @@ def _exhaustive_clauses(patterns, products, kw, mols, depth, cap):
             for p1 in single[(i, j)][:2]:
                 for p2 in single[(a, b)][:2]:
                     done += 1
+                    if len(products) > 1 and any(int(m) for m in list(mols) + p1 + p2):
+                        # ions among several product molecules: `contract_ions()` may merge them into salts, the code then
+                        # logs 'ambiguous multicomponent structures. skip multistage processing' and (documented) does not
+                        # continue from that state
+                        continue
                     st = state_key(p1 + p2 + rest)
                     if st not in got:
                         objs.setdefault(st, p1 + p2 + rest)
@@ -1415,6 +1557,7 @@ def probe_reactor(inp):
     bad += exhaustive_clauses(pats, prods, inp.get('kwargs') or {}, mols)
     bad += reactor_match_clauses(pats, prods, inp.get('kwargs') or {}, mols)
     bad += reactor_switch_clauses(pats, prods, inp.get('kwargs') or {}, mols)
+    bad += reactor_named_clauses(pats, prods, inp.get('kwargs') or {}, mols)
     if bad:
         return True, '; '.join(f'{c}: {d}' for c, d in bad[:4])
     return False, 'all reactor clauses hold'
@@ -1479,6 +1622,7 @@ def molecules_for(ctx, n_corpus):
     from chython import smiles
     mols = [(s, m) for s, m in molgen.handmade()]
     mols += [(s, smiles(s)) for s in EXTRA_MOLS]
+    mols += [(s, smiles(s)) for s in ATTR_MOLS]
     mols += molgen.corpus(ctx.rng, n_corpus)
     return mols
 
@@ -1550,6 +1694,27 @@ def correspond(ctx):
         if not hit.get(name):
             ctx.notes.append(f'synthetic template {name} matched no molecule of this run')
 
+    # Round 5: attribute matrix (charge / radical / isotope: pattern value x way of naming x requested value) on the molecules
+    # that carry those attributes, each also renumbered; K (`init`, `patch`, `trans`) + the clause oracle with and without ring repair
+    amols = [(s_, smiles(s_)) for s_ in ATTR_MOLS]
+    ahit = 0
+    for name, qs, rs, kw in ATTR_TEMPLATES:
+        try:
+            q, r = smarts(qs), parse_repl(rs)
+        except Exception as e:
+            ctx.broke('correspondence', 'synthetic-template-parse', f'{name}: {type(e).__name__}: {e}')
+            continue
+        for tag, mol in amols:
+            if not (q < mol):
+                continue
+            for vtag, vm in ((tag, mol), (tag + '~renum', molgen.renumber(rng, mol)[0])):
+                if add_transformer_cases(cases, 'synthetic.' + name, q, r, vm, vtag, kw, limit=4, qs=qs, rs=rs):
+                    ahit += 1
+                    for fr in (False, True):
+                        for cl, det in clauses(q, r, vm, kw, fix_rings=fr, limit=4):
+                            ctx.fail(f'C16/{cl}', f'{name} on {vtag} (fix_rings={fr}): {det}', replay_input(name, q, r, kw, vm, fr))
+    ctx.dist('attr-template-hits', ahit)
+
     # built-in deprotection rules x their own test molecules (+ corpus in thorough)
     for name, qs, rs, tests in builtin_deprotection():
         try:
@@ -1616,6 +1781,10 @@ def correspond(ctx):
             if k:
                 for cl, det in reactor_clauses(pats, prods, kw, ms, rng, builtin=builtin):
                     ctx.fail(f'C16/{cl}', f'{name} on {tag}: {det}', reactor_replay(name, pats, prods, kw, ms))
+                if not builtin or tag == sets[0][0]:
+                    ctx.dist('reactor-named-checked')
+                    for cl, det in reactor_named_clauses(pats, prods, kw, ms):
+                        ctx.fail(f'C16/{cl}', f'{name} on {tag}: {det}', reactor_replay(name, pats, prods, kw, ms))
                 if any(m.rings_count for m in ms):
                     for cl, det in reactor_switch_clauses(pats, prods, kw, ms):
                         ctx.fail(f'C16/{cl}', f'{name} on {tag}: {det}', reactor_replay(name, pats, prods, kw, ms))
@@ -1886,7 +2055,7 @@ def search(ctx):
         return
     # 2. neighbourhood: the implicated templates (or all, when a theorem / translator broke) on more molecules
     pool = []
-    for name, qs, rs, kw in SYNTHETIC:
+    for name, qs, rs, kw in SYNTHETIC + ATTR_TEMPLATES:
         if not templates or ('synthetic.' + name) in templates:
             pool.append(('synthetic.' + name, qs, rs, kw))
     for name, qs, rs, tests in builtin_deprotection():
